@@ -290,3 +290,63 @@ def double_move_tree(rng, swap=False):
     root = {"p": hider, "i": 1, "a": [[a + 1, {"p": hider, "i": 10 + a,
                                                 "a": [[b + 1, seek(a * k2 + b)] for b in range(k2)]}] for a in range(k1)]}
     return root, tree_stats(root)
+
+
+def needle_tree(rng, width, pl=1):
+    """one decision with `width` actions (more than any fixed-size buffer a traversal might use), the good action near
+    the end; the other player then makes a small choice"""
+    from .gen import tree_stats
+    from .common import f2b
+    good = width - 2
+    acts = []
+    for a in range(width):
+        v = 1.0 if a == good else rng.choice([0.0, 0.0, -0.25])
+        v = v if pl == 1 else -v
+        acts.append([a + 1, {"p": 3 - pl, "i": 700, "a": [[1, {"t": f2b(v)}], [2, {"t": f2b(v - (0.125 if pl == 1 else -0.125))}]]}])
+    t = {"p": pl, "i": 1, "a": acts}
+    return t, tree_stats(t)
+
+
+def biased_rps_tree(rng):
+    """rock-paper-scissors with unequal stakes in extensive form (the second player does not see the first move):
+    a properly mixed equilibrium, D = 4, N = 2, A = 3"""
+    from .gen import tree_stats
+    from .common import f2b
+    a, b, c = rng.choice([(1.0, 2.0, 1.0), (2.0, 1.0, 1.0), (1.0, 1.0, 2.0)])
+    M = [[0.0, -a, b], [a, 0.0, -c], [-b, c, 0.0]]
+    t = {"p": 1, "i": 1, "a": [[i + 1, {"p": 2, "i": 2, "a": [[j + 1, {"t": f2b(M[i][j])}] for j in range(3)]}] for i in range(3)]}
+    return t, tree_stats(t)
+
+
+def two_coins_tree(rng):
+    """two anonymous fair coins one after the other; player one sees the first and passes (0.1) or bets that they are
+    equal; player two sees the second and folds (0.25) or calls (+-1).  The coins are independent: value 0.1."""
+    from .gen import tree_stats
+    from .common import f2b
+
+    def p2(c2, equal):
+        return {"p": 2, "i": 40 + c2, "a": [[1, {"t": f2b(0.25)}], [2, {"t": f2b(1.0 if equal else -1.0)}]]}
+
+    def p1(c1):
+        return {"p": 1, "i": 30 + c1, "a": [[1, {"t": f2b(0.1)}],
+                                             [2, {"c": None, "o": [[f2b(1.0), p2(0, c1 == 0)], [f2b(1.0), p2(1, c1 == 1)]]}]]}
+    t = {"c": None, "o": [[f2b(1.0), p1(0)], [f2b(1.0), p1(1)]]}
+    return t, tree_stats(t)
+
+
+def lone_chooser_tree(rng, pl=1):
+    """only one player ever has a choice: a card dealt 1:2:3, keep / swap / gamble (a coin and a second choice behind a
+    forced move of the other player)"""
+    from .gen import tree_stats
+    from .common import f2b
+    sgn = 1.0 if pl == 1 else -1.0
+
+    def T(x):
+        return {"t": f2b(sgn * x)}
+    outs = []
+    for card, w in enumerate([1.0, 2.0, 3.0]):
+        second = {"p": pl, "i": 60 + card, "a": [[1, T(4.0 - card)], [2, T(card * 1.5)]]}
+        gamble = {"p": 3 - pl, "i": 80, "a": [[1, {"c": None, "o": [[f2b(1.0), second], [f2b(1.0), T(-4.0)]]}]]}
+        outs.append([f2b(w), {"p": pl, "i": 50 + card, "a": [[1, T(float(card))], [2, T(2.0 - card)], [3, gamble]]}])
+    t = {"c": None, "o": outs}
+    return t, tree_stats(t)
